@@ -165,6 +165,7 @@ func init() {
 		monC10RestartAfterParamChange(s)
 		monC10RestartInsideUpgradeBlock(s)
 		monC10RolledBackHandlerEffects(s)
+		monC10RestartThenVerifyInvariant(s)
 		for h := 0; h < n; h++ {
 			accts := rtAccts()
 			dbA, dbB := dbm.NewMemDB(), dbm.NewMemDB()
@@ -238,6 +239,7 @@ func init() {
 		monC09Parallelism(s)
 		monC09ReadHistory(s)
 		monC09NodeConfig(s)
+		monC09UpgradeReplicas(s)
 		for h := 0; h < n; h++ {
 			accts := rtAccts()
 			a, err := NewChain(dbm.NewMemDB(), tmpHome(), accts, 100000, nil)
@@ -535,7 +537,7 @@ func init() {
 		ownerB := accts[1].Bech()
 		// reads: listings (store iterators) of two different owners and of a topic's writers — served by different
 		// goroutines at the same time, as the gRPC server does — and a single item (store Get)
-		kinds := []string{"listing", "listing-b", "writers", "item", "did"}
+		kinds := []string{"listing", "listing-b", "writers", "item", "did", "denoms"}
 		// the DID the "did" reads resolve: created in the first block, updated in every later one; what a height holds
 		// is known by construction (sequence = number of updates, service endpoint names the block), so this kind's
 		// oracle does not come from asking the application
@@ -561,6 +563,17 @@ func init() {
 					return fmt.Sprintf("%d:%x", r.Code, r.Value)
 				}
 				return didAns(r.Code, resp.DidDocumentWithSeq.Sequence, resp.DidDocumentWithSeq.Document.Services[0].ServiceEndpoint)
+			}
+			if kind == "denoms" {
+				// the owner creates one denom per block: what a height holds is known by construction
+				req := pnfttypes.QueryDenomsByOwnerRequest{Owner: owner}
+				bz, _ := req.Marshal()
+				r = a.App.Query(abci.RequestQuery{Path: "/panacea.pnft.v2.Query/DenomsByOwner", Data: bz, Height: height})
+				var resp pnfttypes.QueryDenomsByOwnerResponse
+				if r.Code != 0 || resp.Unmarshal(r.Value) != nil {
+					return fmt.Sprintf("%d:%x", r.Code, r.Value)
+				}
+				return fmt.Sprintf("%d:n=%d", r.Code, len(resp.Denoms))
 			}
 			if kind == "listing" || kind == "listing-b" {
 				req := aoltypes.QueryTopicsRequest{OwnerAddress: owner}
@@ -634,6 +647,7 @@ func init() {
 				w := newAcct("w", []byte(fmt.Sprintf("conc-w-%d", bl)))
 				msgs = append(msgs, &aoltypes.MsgAddWriterRequest{TopicName: "t0", Moniker: "m", WriterAddress: w.Bech(), OwnerAddress: owner})
 			}
+			msgs = append(msgs, &pnfttypes.MsgCreateDenomRequest{Id: fmt.Sprintf("conc-denom-%03d", bl), Name: "n", Symbol: "s", Creator: owner})
 			{
 				d := cdoc(bl)
 				if bl == 0 {
@@ -674,6 +688,10 @@ func init() {
 			for _, k := range kinds {
 				if k == "did" {
 					oracle[fmt.Sprintf("%s@%d", k, a.Height)] = didAns(0, uint64(bl), fmt.Sprintf("https://e/%d", bl))
+					continue
+				}
+				if k == "denoms" {
+					oracle[fmt.Sprintf("%s@%d", k, a.Height)] = fmt.Sprintf("0:n=%d", bl+1)
 					continue
 				}
 				oracle[fmt.Sprintf("%s@%d", k, a.Height)] = q(k, a.Height)
